@@ -66,6 +66,7 @@ type Contract struct {
 	Opaque    bool
 	Atomic    bool
 	TimeoutS int
+	NoRefine bool
 	Paths    bool
 	Apply    []Clause // explicit lemma instances assumed at entry
 	Notes     []string
@@ -441,6 +442,10 @@ func (db *SpecDB) LoadFile(path, pkgPath string) error {
 			cur.Atomic2 = append(cur.Atomic2, strings.Fields(rest)...)
 		case "note":
 			cur.Notes = append(cur.Notes, rest)
+		case "norefine":
+			// an interface contract that is assumed at call sites without being tied to the contracts
+			// of the implementations (listed as an assumption)
+			cur.NoRefine = true
 		case "paths":
 			// verify every path through the (loop-free) body separately instead of merging at joins
 			cur.Paths = true
